@@ -159,8 +159,13 @@ public:
 	ndim(0),order(NULL),knots(NULL),nknots(NULL),extents(NULL),periods(NULL),
 	coefficients(NULL),naxes(NULL),strides(NULL),naux(0),aux(NULL),allocator(alloc)
 	{
-    assert(!tables.empty());
-    assert(tables.size()==coordinates.size());
+    //the padding tables below are extrapolated from the first two and the last
+    //two inputs
+    if(tables.size()<2)
+      throw std::invalid_argument("At least two tables are needed for stacking");
+    if(tables.size()!=coordinates.size())
+      throw std::invalid_argument("The number of tables to stack ("+std::to_string(tables.size())+
+                                  ") must match the number of coordinates ("+std::to_string(coordinates.size())+")");
     int inputDim=tables.front()->get_ndim();
     for(auto table : tables){
       assert(table->get_ndim() == inputDim);
